@@ -21,13 +21,19 @@ CFG = {
     "rule": "cases = all 73 formats x sizes {1x1 .. 257x129, 1024x16, 16x1024, 65536x1, 1x65536, 16385x3} x "
             "{full, interior rect, full-width strip, far-corner pixel} x limits {0, 1, 1 KiB, 64 KiB, need-1, need, "
             "default}; 17 representatives at 1024^2 (thorough 2048^2, 4096^2) x {need-1, need, default}; 4096x4096 "
-            "with the default limit for all 73 formats (thorough: 3 calls each); PRNG "
-            "sizes/rects/limits. Comparison is a refinement: observed need <= model need, measured peak <= bytes the "
+            "with the default limit for all 73 formats (thorough: 3 calls each + a padded output view); output "
+            "views: all 73 formats x sizes {1x1, 7x5, 64x64, 257x129; thorough + 1024x16, 16x1024, 3000x3} x full "
+            "decode in the natural colour (the one with a specialised whole-image decoder) x {row pitch + N "
+            "(ImageViewMut::new_with), two cropped views, Decoder::read_cube_map atlas} x limits {0, 1 KiB, need-1, "
+            "need}, another colour and 3 rects x 2 colours x {0, need-1, need} into a random strided view; PRNG "
+            "sizes/rects/limits/colours, half of them into strided views. Comparison is a refinement: observed need <= model need, measured peak <= bytes the "
             "model hands to the allocator + 4096, same result (an implementation that needs less may succeed where "
             "the model refuses). Non-trivial = not bad-case; distinct = distinct case lines.",
     "assumptions": [
         "the implementation equals (refines) the model off the generated cases",
         "allocations are made on the calling thread (decode is single-threaded)",
+        "the model's answer does not depend on the caller's output view (contiguous, padded pitch, cropped, cube "
+        "atlas); the harness decodes into all of them",
         "oracle in harness/src/c07.rs: peak <= limit + 4096, MemoryLimitExceeded iff limit < observed need, "
         "4096x4096 decodes with the default limit; independent of the model",
     ],
@@ -75,4 +81,9 @@ def nontrivial(c, r):
 def classify(c, r):
     t = c.split()
     lim = t[-1] if t[-1] in ("0", "1", "1024", "65536", "n", "n-1", "d") else "num"
-    return f"{t[0]} {r.split(' ')[0]} lim={lim}"
+    view = "contig"
+    if lim == "num" and not t[-1].isdigit():
+        v = t[-1]
+        view = "cube" if v == "cube" else "pitch" if v[:1] == "p" else "crop" if v[:1] == "x" else "contig"
+        lim = t[-2] if t[-2] in ("0", "1", "1024", "65536", "n", "n-1", "d") else "num"
+    return f"{t[0]} {r.split(' ')[0]} lim={lim} view={view}"
